@@ -201,7 +201,7 @@ class Reporter(object):
             if f.get('key') == key:
                 self.known_hits.setdefault(key, f)
                 return False
-        if len(self.violations) < 50:
+        if len(self.violations) < 2000:
             self.violations.append(dict(key=key, case=case, why=why))
         else:
             self.violations.append(None)
@@ -226,7 +226,9 @@ class Reporter(object):
                     json.dump(dict(property=self.pid, seed=seed, tier=self.tier, **v), f, indent=1, default=_jd)
                 print('VIOLATION property=%s replay=%s' % (self.pid, path))
                 print('  why: %s' % (v['why'],))
-            print('%s: %d violation(s)' % (self.pid, nviol))
+            import collections
+            hist = collections.Counter(v['key'].split(':')[0] for v in self.violations if v)
+            print('%s: %d violation(s) by kind: %s' % (self.pid, nviol, dict(hist)))
             return 1
         print('%s: OK (%s tier, %.1fs) %s' % (self.pid, self.tier, time.time() - self.t0,
                                               json.dumps({k: v for k, v in coverage.items()
